@@ -21,6 +21,13 @@ def main(tier):
     sbehs, r = progfam.generate('GenC02sim.cfg', simulate=num, timeout=3000)
     n, nt = progfam.replay(chk, sbehs, 2, ['--measure'], OWNED, tag='sim', jobs=12)
     total += n; nontriv += nt
+    # general position (GenPos.tla classes, seeded float parameters): MinGap against an independent brute-force
+    # triangle-triangle distance, BoundingBox of lazily transformed / composed results against the exported vertices
+    gb, r = progfam.generate('GenPos.cfg', module='GenPos')
+    n, nt = progfam.replay(chk, gb, 0, ['--seed=%d' % vf.seed(), '--points=20', '--reps=%d' % (1 if tier == 'quick' else 8)], OWNED,
+                           tag='genpos', mode='genpos', jobs=12, chunk=30, sig_of=lambda f, beh: '%s|%s|%s' % (f['kind'], f['detail'].get('why', ''), json.dumps(beh)[:200]))
+    total += n; nontriv += nt
+    chk.coverage['general_position_classes'] = n
     chk.coverage.update({
         'evaluations': total, 'distinct_nontrivial': nontriv,
         'rule': 'every live handle of TLC-generated lattice programs (pairs of the 27 boxes of the 2x2x2 window x 3 ops; '
